@@ -166,12 +166,41 @@ def history_runs(ctx, CNF, OPB):
         ops = []
         ok = True
         for _ in range(rng.randint(1, 12)):
-            kind = rng.choice(['single', 'block', 'mapping', 'binmap', 'comb', 'clause', 'clause', 'unchecked', 'raise', 'bip', 'graph'])
+            want = None
+            kind = rng.choice(['single', 'block', 'mapping', 'binmap', 'comb', 'clause', 'clause', 'unchecked', 'raise', 'bip', 'graph', 'linear', 'linear'])
             before = F.number_of_variables()
             try:
                 if kind == 'clause':
                     c = [rng.choice([1, -1]) * rng.randint(1, before + 3) for _ in range(rng.randint(0, 3))]
                     F.add_clause(c)
+                    mentioned = max([mentioned] + [abs(l) for l in c])
+                    ops.append([Sym('clause'), c, True])
+                    continue
+                if kind == 'linear':
+                    # a constraint builder called with literals beyond the current count (checked insertion):
+                    # every builder must raise the count like add_clause does
+                    c = [rng.choice([1, -1]) * v for v in rng.sample(range(1, before + 5), rng.randint(1, 3))]
+                    which = rng.choice(['<=', '>=', '==', '!=', '<', '>', 'parity', 'loose_majority', 'strict_minority'])
+                    kk = rng.randint(0, len(c))
+                    if which in ('<=', '>=', '==', '!='):
+                        {'<=': F.cardinality_leq, '>=': F.cardinality_geq, '==': F.cardinality_eq, '!=': F.cardinality_neq}[which](c, kk)
+                    elif which in ('<', '>'):
+                        if fc is CNF:
+                            F.add_linear(c, which, kk)
+                        else:
+                            F.add_constraint([(1, l) for l in c] + [which, kk])
+                    elif which == 'parity':
+                        F.add_parity(c, kk % 2)
+                    else:
+                        getattr(F, 'add_' + which)(c)
+                    ctx.tally('history op', 'builder ' + which)
+                    mx_now, bad_now = scan(F, fc is OPB)
+                    if bad_now is not None or F.number_of_variables() < max(abs(l) for l in c):
+                        ctx.violation('counterexample', 'builder %s with literals %s left the formula with %d variables (a literal is out of range)' % (which, c, F.number_of_variables()),
+                                      dict(input=dict(ops=str(ops), builder=which, literals=c, constant=kk, formula_class=fc.__name__), numvar=F.number_of_variables()), True,
+                                      site='builder-range', cls=which)
+                        ok = False
+                        break
                     mentioned = max([mentioned] + [abs(l) for l in c])
                     ops.append([Sym('clause'), c, True])
                     continue
@@ -188,21 +217,33 @@ def history_runs(ctx, CNF, OPB):
                     F.update_variable_number(k)
                     ops.append([Sym('raise'), k])
                     continue
+                want = None
                 if kind == 'single':
                     g = [F.new_variable('s%d' % len(ops))]
+                    want = 1
                     ops.append([Sym('group'), 1])
                 elif kind == 'block':
                     dims = [rng.randint(0, 3) for _ in range(rng.randint(1, 3))]
                     g = list(F.new_block(*dims))
+                    want = 1
+                    for x in dims:
+                        want *= x
                     ops.append([Sym('group'), len(g)])
                 elif kind == 'mapping':
-                    g = list(F.new_mapping(rng.randint(0, 3), rng.randint(0, 3)))
+                    a_, b_ = rng.randint(0, 3), rng.randint(0, 3)
+                    g = list(F.new_mapping(a_, b_))
+                    want = a_ * b_
                     ops.append([Sym('group'), len(g)])
                 elif kind == 'binmap':
-                    g = list(F.new_binary_mapping(rng.randint(1, 3), rng.randint(1, 5)))
+                    a_, b_ = rng.randint(1, 3), rng.choice([1, 1, 2, 3, 4, 5, 8, 9])
+                    g = list(F.new_binary_mapping(a_, b_))
+                    want = a_ * (b_ - 1).bit_length()          # documented: ceil(log2 m) bits per element
                     ops.append([Sym('group'), len(g)])
                 elif kind == 'comb':
-                    g = list(F.new_combinations(rng.randint(0, 4), rng.randint(0, 3)))
+                    a_, b_ = rng.randint(0, 4), rng.randint(0, 3)
+                    g = list(F.new_combinations(a_, b_))
+                    import math
+                    want = math.comb(a_, b_)
                     ops.append([Sym('group'), len(g)])
                 elif kind == 'bip':
                     B = cnfgen.BipartiteGraph(rng.randint(0, 3), rng.randint(0, 3))
@@ -226,6 +267,11 @@ def history_runs(ctx, CNF, OPB):
                 ok = False
                 break
             ctx.tally('history op', kind)
+            if want is not None and len(g) != want:
+                ctx.violation('counterexample', 'new %s group has %d variables, documented %d' % (kind, len(g), want),
+                              dict(input=dict(ops=str(ops), formula_class=fc.__name__), size=len(g), documented=want), True, site='group-size', cls=kind)
+                ok = False
+                break
             if g:
                 if g != list(range(g[0], g[0] + len(g))) or g[0] <= mentioned or g[0] <= before or F.number_of_variables() != g[-1]:
                     ctx.violation('counterexample', 'new %s group got identifiers %s although variables up to %d were mentioned / %d declared' % (kind, g[:4], mentioned, before),
